@@ -14,8 +14,22 @@ def script_of(lines, idx, is_reset=lambda l: l.startswith("reset")):
     return s, idx + 1
 
 
+def run_impl_parallel(layer, lines, jobs, env_extra=None):
+    """jobs: list of (mode, impl_args); runs them concurrently; returns list of outputs or ImplBroken instances"""
+    from concurrent.futures import ThreadPoolExecutor
+    core.build_overlay()
+
+    def one(job):
+        try:
+            return core.run_impl(layer, lines, job[0], job[1], env_extra)
+        except core.ImplBroken as e:
+            return e
+    with ThreadPoolExecutor(max_workers=len(jobs)) as ex:
+        return list(ex.map(one, jobs))
+
+
 def correspond(chk, layer, lines, modes=("c", "py"), model_args=(), impl_args=(), env_extra=None,
-               model_layer=None, normalise=None, label=""):
+               model_layer=None, normalise=None, label="", precomputed=None):
     """Run the same lines on the model driver and on the implementation in each mode.
     Returns (impl_outputs_by_mode, model_outputs, divergences) where a divergence is
     dict(mode, index, line, impl, model, script)."""
@@ -24,7 +38,12 @@ def correspond(chk, layer, lines, modes=("c", "py"), model_args=(), impl_args=()
     divs = []
     for m in modes:
         try:
-            out = core.run_impl(layer, lines, m, impl_args, env_extra)
+            if precomputed is not None and m in precomputed:
+                out = precomputed[m]
+                if isinstance(out, core.ImplBroken):
+                    raise out
+            else:
+                out = core.run_impl(layer, lines, m, impl_args, env_extra)
         except core.ImplBroken as e:
             bad_script = isolate_crash(layer, lines, m, impl_args, env_extra)
             divs.append(dict(mode=m, index=-1, line="", impl="<implementation could not be run: %s>" % str(e)[-1500:],
